@@ -114,6 +114,8 @@ type Conn struct {
 	seq        int
 	subsEver   int
 	MaxPayload int
+	// StallPings: the broker has stopped answering PINGs (Flush runs into its timeout).
+	StallPings bool
 	// OnPublish lets a harness inject a failure.
 	OnPublish func(subj, reply string, data []byte) error
 }
@@ -374,16 +376,30 @@ func (c *Conn) PublishRequest(subj, reply string, data []byte) error {
 }
 func (c *Conn) PublishMsg(m *Msg) error { return c.publish(m.Subject, m.Reply, m.Data) }
 
-func (c *Conn) Flush() error {
+func (c *Conn) Flush() error { return c.flush(10 * time.Second) }
+
+// FlushTimeout is Flush with the caller's bound on the PING / PONG round trip.
+func (c *Conn) FlushTimeout(d time.Duration) error {
+	if d <= 0 {
+		return ErrBadTimeout
+	}
+	return c.flush(d)
+}
+
+func (c *Conn) flush(d time.Duration) error {
 	vsched.Yield()
 	c.obj.Read()
 	if c.status != CONNECTED {
 		return ErrConnectionClosed
 	}
+	if c.StallPings {
+		// the broker no longer answers PINGs although the connection still counts as connected: the
+		// round trip ends with the flush timeout (10 s for a plain Flush)
+		vsched.Sleep(int64(d))
+		return ErrTimeout
+	}
 	return nil
 }
-
-func (c *Conn) FlushTimeout(d interface{}) error { return c.Flush() }
 
 func (c *Conn) Barrier(f func()) error {
 	vsched.Yield()
